@@ -90,7 +90,7 @@ func c09EvalCase(cs c09Case) (fs []F) {
 	for i, a := range cs.Amps {
 		vals[i] = ampToRaw(ts.Kind, ts.Bits, a)
 	}
-	f32 := d == dyn.Float32
+	f32 := isF32(d)
 	doBack := (ts.Bits <= 32 && !f32) || (ts.Bits <= 16 && f32)
 	out, out2 := evalAt(s, d, vals, cs.Pos, cs.Len, cs.Ch, doBack)
 	name := dyn.ConvName(s, d) + "/" + cs.S + "->" + cs.D
@@ -139,7 +139,7 @@ func c09Run(c *core.Ctx) {
 			_ = td
 			inst++
 			name := dyn.ConvName(s, d) + "/" + ts.Name + "->" + td.Name
-			f32 := d == dyn.Float32
+			f32 := isF32(d)
 			strict := ts.Bits <= 32 && !f32
 			roundtrip := (ts.Bits <= 32 && !f32) || (ts.Bits <= 16 && f32)
 			type dom struct {
@@ -280,7 +280,7 @@ func c09Run(c *core.Ctx) {
 	c.Set("distinct_nontrivial", distinct.Load())
 	c09Judge := func(s, d int, in, out uint64) (string, string) {
 		ts := dyn.Types[s]
-		return c09Point(ts.Bits, d == dyn.Float32, rawToAmp(ts.Kind, ts.Bits, in), math.Float64frombits(out))
+		return c09Point(ts.Bits, isF32(d), rawToAmp(ts.Kind, ts.Bits, in), math.Float64frombits(out))
 	}
 	digests := ctxRun(c, "C09", c09Judge, false, func(s, d int) bool { return dyn.Types[s].Kind != dyn.Float && dyn.Types[d].Kind == dyn.Float })
 	c.Set("ctx_digests", digests)
@@ -302,7 +302,7 @@ func init() {
 			if isCtxCase(raw) {
 				return ctxReplay(c, raw, func(s, d int, in, out uint64) (string, string) {
 					ts := dyn.Types[s]
-					return c09Point(ts.Bits, d == dyn.Float32, rawToAmp(ts.Kind, ts.Bits, in), math.Float64frombits(out))
+					return c09Point(ts.Bits, isF32(d), rawToAmp(ts.Kind, ts.Bits, in), math.Float64frombits(out))
 				}, false)
 			}
 			return c09EvalCase(decode[c09Case](raw))
